@@ -2,6 +2,7 @@
 mod api;
 mod config;
 mod explore;
+mod handle;
 mod model;
 mod ops;
 mod pair;
